@@ -87,6 +87,9 @@ type world struct {
 
 	outstanding int // planned messages not yet retrieved by an agent
 
+	// bounded progress: cycle of the last event at a device port (send accepted, delivery, retrieval)
+	lastEvent, stallEnd, maxGap uint64
+
 	sendBlocked, portFullStalled, heldFlits []int64 // per network
 	portsUpTo                               []int   // reg.ports[:portsUpTo[k]] belong to networks 0..k
 	stalledTicks, flitHops, twins           int64
@@ -94,6 +97,18 @@ type world struct {
 }
 
 func (w *world) now() uint64 { return uint64(w.eng.CurrentTime()) / period }
+
+func (w *world) progress() {
+	now := w.now()
+	since := w.lastEvent
+	if w.stallEnd > since {
+		since = w.stallEnd
+	}
+	if now > since && now-since > w.maxGap {
+		w.maxGap = now - since
+	}
+	w.lastEvent = now
+}
 
 func (w *world) fail(key, format string, a ...any) {
 	if len(w.viols) < 50 {
@@ -181,6 +196,7 @@ func (a *agent) Tick() bool {
 				break
 			}
 			progress = true
+			w.progress()
 			w.outstanding--
 			if rec := w.msgs[m.Meta().ID]; rec != nil {
 				rec.retrieved++
@@ -232,7 +248,9 @@ func (w *world) tapDevicePort(p messaging.Port) {
 				return
 			}
 			rec.sent, rec.sentAt = true, w.now()
+			w.progress()
 		case messaging.HookPosPortMsgRecvd:
+			w.progress()
 			rec := w.msgs[meta.ID]
 			switch {
 			case rec == nil:
@@ -498,7 +516,10 @@ func run(b kit.Batch, r *kit.R) {
 		w.tapNetworkPorts()
 
 		// receivers stall and resume
-		horizon := uint64(300 + 6*total)
+		horizon := uint64(200 + total) // about as long as the traffic lasts
+		for _, ni := range nets {
+			horizon += 6 * uint64(ni.MaxLat)
+		}
 		stallMode := []string{"none", "some", "some", "most", "all-at-once"}[rng.Intn(5)]
 		var stallEnd uint64
 		for _, a := range w.agents {
@@ -525,22 +546,40 @@ func run(b kit.Batch, r *kit.R) {
 		desc := map[string]any{"networks": nets, "patterns": patterns, "messages": total, "max_flits": maxFlits, "stalls": stallMode}
 		c.Desc(desc)
 
-		// virtual-time budget: every flit alone through every switch, one after the other, four times over
-		var budget uint64 = 20000 + stallEnd
+		// bounded progress: while messages are outstanding and every stall is over, some device port must see an
+		// event (send accepted, delivery, retrieval) at least every `watchdog` cycles: ten times the time one
+		// message of the largest size needs alone through every switch of the network. The overall budget (every
+		// flit alone through every switch, one after the other, four times over) is only a cap.
+		w.stallEnd = stallEnd
+		var budget, watchdog uint64 = 20000 + stallEnd, 0
 		for _, ni := range nets {
-			budget += 4 * uint64(total) * uint64(maxFlits+1) * uint64(ni.MaxSw+2) * uint64(ni.MaxLat+8)
+			alone := uint64(maxFlits+1) * uint64(ni.MaxSw+2) * uint64(ni.MaxLat+8)
+			budget += 4 * uint64(total) * alone
+			if wd := 5000 + 10*alone; wd > watchdog {
+				watchdog = wd
+			}
 		}
-		if err := eng.RunUntil(timing.VTimeInPicoSec(budget * period)); err != nil {
-			panic(err)
-		}
-		end := w.now()
-		quiet := true
-		if w.outstanding > 0 { // does anything still move?
-			if err := eng.RunUntil(timing.VTimeInPicoSec((budget + 3000) * period)); err != nil {
+		outcome := "quiet"
+		for t := uint64(0); w.outstanding > 0; {
+			t += watchdog / 2
+			before := eng.CurrentTime()
+			if err := eng.RunUntil(timing.VTimeInPicoSec(t * period)); err != nil {
 				panic(err)
 			}
-			quiet = w.now() < budget
+			if eng.CurrentTime() == before && t > watchdog {
+				break // nothing is scheduled any more
+			}
+			since := max(w.lastEvent, stallEnd)
+			if w.now() > since+watchdog {
+				outcome = fmt.Sprintf("still busy, but no device port has seen a send, delivery or retrieval since cycle %d (now %d, watchdog %d cycles)", since, w.now(), watchdog)
+				break
+			}
+			if t > budget {
+				outcome = fmt.Sprintf("still busy after the budget of %d cycles", budget)
+				break
+			}
 		}
+		end := w.now()
 
 		// ---- judge
 		for _, v := range w.viols {
@@ -597,8 +636,8 @@ func run(b kit.Batch, r *kit.R) {
 				continue
 			}
 			key, how := "liveness/undelivered-at-quiescence", fmt.Sprintf("the engine went quiet at cycle %d", end)
-			if !quiet {
-				key, how = "liveness/undelivered-at-budget", fmt.Sprintf("still busy after the budget of %d cycles", budget)
+			if outcome != "quiet" {
+				key, how = "liveness/no-progress-while-busy", outcome
 			}
 			if k > 0 {
 				key += "/reused-connector"
@@ -628,6 +667,8 @@ func run(b kit.Batch, r *kit.R) {
 		r.Count("stalled_receiver_ticks", w.stalledTicks)
 		r.Max("max_flit_dwell_in_output_buffer_cycles", int64(w.maxDwell))
 		r.Max("max_budget_used_pct", int64(end*100/budget))
+		r.Max("max_gap_between_device_port_events_cycles", int64(w.maxGap))
+		r.Max("max_gap_between_device_port_events_pct_of_watchdog", int64(w.maxGap*100/watchdog))
 		r.Max("max_agents", int64(len(w.agents)))
 		for _, p := range patterns {
 			r.Count("pattern/"+p, 1)
@@ -651,7 +692,7 @@ func run(b kit.Batch, r *kit.R) {
 			}
 		}
 		c.Sample(map[string]any{"config": desc, "first_messages": sample, "delivered": delivered, "multi_hop": multiHop, "multi_flit": multiFlit,
-			"held_flits": held, "send_blocked": blocked, "end_cycle": end, "budget": budget})
+			"held_flits": held, "send_blocked": blocked, "end_cycle": end, "budget": budget, "watchdog": watchdog, "max_gap": w.maxGap})
 	})
 }
 
@@ -676,10 +717,10 @@ func main() {
 			"message ids are unique among the messages of a case (the id generator guarantees it in a simulation); device port names are unique",
 			"the network carries metadata only: a delivery is judged by the MsgMeta of whatever message object arrives at the device port",
 			"liveness is judged for mesh, PCIe, hybrids whose switch graph is a tree and generic trees; a receiver may stall for a bounded stretch and then drains again; in cyclic switch graphs only the safety half is judged",
-			"the virtual-time budget is 20000 + end of the last stall + 4 x messages x (max flits+1) x (switches+2) x (latency+8) cycles",
+			"bounded progress: with A = (max flits+1) x (switches+2) x (latency+8) cycles, once every stall is over and messages are outstanding some device port sees a send, delivery or retrieval every 5000 + 10 A cycles; overall cap 20000 + last stall + 4 x messages x A",
 		},
 		Plan: func(tier string, seed int64) []kit.Batch {
-			n, reps, msgs := 60, 1, 400
+			n, reps, msgs := 40, 1, 400
 			if tier == "thorough" {
 				n, reps, msgs = 300, 4, 600
 			}
